@@ -4,7 +4,7 @@ Hand model (kind H), written function by function after the C code (pinned tree 
 named below).  Strings are `List Char` (one `Char` per C byte; the generator stays in ASCII), option values are
 `Val` = `NULL` | `(char*)1` | a string, exactly the three shapes `g->val[i]` can have.
 
-Covered C functions: `esl_getopts_Create` (default verification), `set_option`, `get_optidx_exactly`,
+Covered C functions: `esl_getopts_Create` (default verification), `esl_getopts_Reuse`, `set_option`, `get_optidx_exactly`,
 `get_optidx_abbrev`, `esl_getopts`, `process_longopt`, `process_stdopt`, `esl_opt_ProcessCmdline`,
 `esl_opt_ProcessSpoof`, `esl_opt_ProcessEnvironment`, `esl_opt_ProcessConfigfile`, `esl_opt_VerifyConfig`,
 `process_optlist`, `verify_type_and_range`, `verify_integer_range`, `verify_real_range`, `verify_char_range`,
@@ -614,6 +614,11 @@ def create (opts : List Opt) : Option G :=
     some { opts := opts, val := opts.map (fun o => match o.defval with | some d => Val.str d | none => Val.null),
            setby := opts.map (fun _ => byDefault) }
   else none
+
+/-- `esl_getopts_Reuse`: back to the state `esl_getopts_Create` produced -/
+def reuse (g : G) : G :=
+  { opts := g.opts, val := g.opts.map (fun o => match o.defval with | some d => Val.str d | none => Val.null),
+    setby := g.opts.map (fun _ => byDefault) }
 
 def isDefault (g : G) (i : Nat) : Bool :=
   if g.setter i == byDefault then true
